@@ -439,7 +439,7 @@ func init() {
 
 func init() {
 	// sync/atomic typed values: sequential semantics (assumption A5): Load/Store of the value field
-	for _, tn := range []string{"Uint64", "Uint32", "Int64", "Int32", "Bool"} {
+	for _, tn := range []string{"Uint64", "Uint32", "Int64", "Int32", "Bool", "Value"} {
 		tn := tn
 		field := func(f *Frame, instr ssa.Instruction) (types.Type, int, types.Type, bool) {
 			call, ok := instr.(ssa.CallInstruction)
